@@ -25,6 +25,11 @@ def pivot():
     S.append(EnumSpec("DisAttr", [U("A", fields=[Field("u8")]), U("H1", disabled=True, message="m", flags_last=True, fields=[Field("u8")]),
                                   U("B"), U("H2", disabled=True, attr_style="trailing"), U("C", fields=[Field("u16"), Field("u8")])],
                       note="`disabled` after a key = value item in the same attribute / with a trailing comma"))
+    S.append(EnumSpec("OneEnabled", [U("Only", fields=[Field("u8")]), U("Off", disabled=True), U("Off2", disabled=True, fields=[Field("u8")])],
+                      note="exactly ONE enabled variant next to disabled ones (a single-arm shortcut must still say false for the disabled values)"))
+    S.append(EnumSpec("OneUnit", [U("Solo")], note="a true single-variant enum"))
+    S.append(EnumSpec("Digits", [U("I2c", fields=[Field("u8")]), U("Ipv4addr"), U("V1beta2", fields=[Field("u16"), Field("u8")]), U("Sha256sum"), U("X9"), U("A1B2")],
+                      note="numbers followed by a LOWER-case letter inside the identifier (is_i_2c, is_ipv_4addr, is_v_1beta_2, ...)"))
     S.append(EnumSpec("G", [U("A", fields=[Field("T")]), U("B", fields=[Field("T"), Field("u8")]), U("C"), U("D", fields=[Field("T", name="t")], named=True)],
                       generics=GEN, ty_args="<u16>", subst={"T": "u16"}, note="generic payloads"))
     S.append(EnumSpec("Lt", [U("S", fields=[Field("&'a str")]), U("N", fields=[Field("u8")]), U("U")], generics="<'a>", ty_args="<'static>",
